@@ -197,6 +197,9 @@ class _ZkProve(_Backend):
             cons.append(row)
         m.constraints[:] = cons
         self._pub, self._priv, self._cons = list(m.pubvals), list(m.privvals), cons
+        # the working directory already holds the (longer) files of an earlier, larger computation
+        c.w.fs["computation.zkif"] = [b"\x07" * 4096]
+        c.w.fs["circuit.zkif"] = [b"\x07" * 4096]
         return m.prove, (), {}
 
     # -- decoding by the schema's slot order ---------------------------------------------------
@@ -270,6 +273,8 @@ class _ZkProve(_Backend):
         d = {"V.modulus": m.modulus == p and m.get_modulus() == p, "V.BL": m.BL == BL}
         for fname in ("computation.zkif", "circuit.zkif"):
             d["F.written_and_closed[%s]" % fname] = fname in w.fs and ("close", fname) in w.io_events
+            # the file is exactly this run's messages: nothing of an earlier file survives behind them
+            d["F.replaces_earlier_file[%s]" % fname] = fname not in getattr(w, "stale_tail", {})
         if not all(d.values()):
             return d
         comp, circ = w.fs["computation.zkif"], w.fs["circuit.zkif"]
